@@ -71,6 +71,35 @@ for fp in sorted(glob.glob(os.path.join(root, "harness", "extract", "facts_*.go"
         desc = " ".join(l.strip("/ ").strip() for l in src.split("\n") if l.startswith("//"))[:260]
         out.append("| `%s` | `%s` | %s | %s |" % (name, os.path.basename(fp), desc.replace("|", "\\|"), ", ".join(users.get(name, [])) or "-"))
 out.append("")
+# 10.4 fix commits
+out.append("### 10.4 Fix commits in /repo\n")
+out.append("Every defect below was first reported by a check on the unchanged (or then-current) tree with a concrete\n"
+           "failing input, then repaired by one unguarded `fix:` commit; the model was moved to the repaired behaviour,\n"
+           "the full theorem proved, and the finding recorded as `fixed` (it suppresses nothing: the check reports the\n"
+           "violation again if it returns). A few commits repair a regression or gap in an earlier fix that a review or a\n"
+           "later check found. The pinned suite (guard off) passes with all of them.\n")
+out.append("| commit | subject | property (from the findings files) |")
+out.append("|---|---|---|")
+bycommit = {}
+for f in find:
+    if f.get("commit"):
+        bycommit.setdefault(f["commit"][:7], set()).add(f["property"])
+log = subprocess.run(["git", "-C", "/repo", "log", "--reverse", "--format=%h\t%s", "6adfe41..HEAD"], stdout=subprocess.PIPE, text=True).stdout
+for l in log.strip().split("\n"):
+    if not l.strip(): continue
+    h, subj = l.split("\t", 1)
+    out.append("| `%s` | %s | %s |" % (h, subj.replace("|", "\\|"), ", ".join(sorted(bycommit.get(h[:7], []))) or "-"))
+out.append("")
+sr = os.path.join(root, "seeded", "RESULTS.md")
+if os.path.exists(sr):
+    out.append("### 10.3 Seeded changes: which check catches which change\n")
+    out.append("Every `seeded/<name>/` holds an independently written change to rqlite (patch.diff), its demonstration\n"
+               "(a test that fails with the change and passes without it), meta.json (what it breaks, what it needs to\n"
+               "manifest, what was run) and the logs of our own confirmation. The authors saw only the property text.\n"
+               "`tools/run_seeded.sh <name> <tier> [check ids]` applies one to a scratch worktree of /repo and runs the\n"
+               "checks against it with VERIF_REPO; `tools/seed_matrix.sh` runs all of them. Last matrix:\n")
+    out += [l for l in open(sr).read().split("\n") if not l.startswith("# ")] 
+    out.append("")
 text = "\n".join(out)
 dp = os.path.join(root, "DESIGN.md")
 d = open(dp).read()
